@@ -6,6 +6,6 @@ for f in $list; do
   id=$(basename $f .json)
   mkdir /tmp/thor_claim_$id 2>/dev/null || continue
   t0=$(date +%s)
-  VERIF_REPO=${VERIF_REPO:-/tmp/thorough-repo} ./check $id thorough > /tmp/thor_$id.log 2>&1; rc=$?
+  VERIF_REPO=${VERIF_REPO:-/repo} ./check $id thorough > /tmp/thor_$id.log 2>&1; rc=$?
   echo "$id exit=$rc $(( $(date +%s) - t0 ))s | $(tail -1 /tmp/thor_$id.log | cut -c1-140)" >> /tmp/thorough_all.log
 done
